@@ -10,8 +10,22 @@ from props import sessprop
 
 def gen(rnd):
     cfg = [matchgen.matcher(rnd, 1).strip() if rnd.random() < 0.5 else None, None, 0, 1, 0]
-    return sessioncheck.build_case(rnd, n_events=rnd.choice([15, 30]), config=cfg, chatter=0.05,
+    case = sessioncheck.build_case(rnd, n_events=rnd.choice([15, 30]), config=cfg, chatter=0.05,
                                    cmds=lambda r: cmdgen.mixed(r, (1, 0, 3, 1, 0)), cmd_rate=0.1)
+    if rnd.random() < 0.3:
+        # the live view stops early (filter = an early message's name), then a listing whose first hit is much later:
+        # the listing must not inherit the live view's last shown time (no separator under the header)
+        msgs = [e[2] for e in case['events'] if e[0] == 'msg']
+        if len(msgs) >= 4:
+            early = msgs[rnd.randrange(0, 2)]
+            late = msgs[-rnd.randrange(1, 3)]
+            flt = '%s.%s' % (early[1][0], early[4])
+            if sessioncheck.valid_matcher(flt):
+                case['config'][0] = flt
+                for cmd in ('list %s.%s' % (late[1][0], late[4]), 'list .%s' % late[4], 'list'):
+                    case['events'].append(['cmd', cmd])
+                    case['impl_events'].append(('cmd', cmd))
+    return case
 
 
 def nontriv(c, m):
